@@ -253,7 +253,7 @@ func (m *Model) RunRecDepth(s *Sink, rule string, fns []*ssa.Function, minCycles
 			continue
 		}
 		seenHub[hub] = true
-		key := fmt.Sprintf("%s|recursion through %s is bounded by a depth guard", fnKey(hub), canonFnName(hub))
+		key := fmt.Sprintf("%s.%s|recursion through %s is bounded by a depth guard", shortPkg(fnPkgPath(hub)), canonFnName(hub), canonFnName(hub)) // keyed by name: the same finding whether the entry is a method or a function
 		var names []string
 		for _, f := range comp {
 			names = append(names, f.Name())
